@@ -38,6 +38,21 @@ func init() {
 	impls["tlog.checktree"] = func(a []string) string {
 		return tlogErr(tlog.CheckTree(tlogHashes(a[0]), tlogI64(a[1]), tlogHash(a[2]), tlogI64(a[3]), tlogHash(a[4])))
 	}
+	// the provers over the synthetic hash reader of a log of identical records (util_c03uniform.go), t <= 2^62+1
+	impls["tlog.uproverecord"] = func(a []string) string {
+		p, err := tlog.ProveRecord(tlogI64(a[0]), tlogI64(a[1]), c03NewUniform(unhx(a[2])))
+		if err != nil {
+			return tlogErr(err)
+		}
+		return tlogHashesHex(p)
+	}
+	impls["tlog.uprovetree"] = func(a []string) string {
+		p, err := tlog.ProveTree(tlogI64(a[0]), tlogI64(a[1]), c03NewUniform(unhx(a[2])))
+		if err != nil {
+			return tlogErr(err)
+		}
+		return tlogHashesHex(p)
+	}
 	// the independent specification (lean/ModVerif/Spec/RFC6962.lean) against this harness's own RFC code
 	// (spec*) and against the real checkers' acceptance (specacc*)
 	impls["tlog.specpath"] = func(a []string) string { return tlogHashesHex(rfcPath(atoi(a[0]), tlogRecords(a[1]))) }
@@ -56,7 +71,7 @@ func init() {
 		return showBool(tlog.CheckTree(x.p, x.t, x.th, x.n, x.h) == nil)
 	}
 	register(&Prop{ID: "C03", Gen: genC03, Oracle: oracleC03,
-		Rule: "every (t, n) with t <= 64 (thorough: t <= 160 plus sampled t <= 600): ProveRecord / ProveTree over a log of t records, and CheckRecord / CheckTree on the valid tuple and on mutations of every component (each proof hash: bit flip, swap two, reverse, drop first/last/middle, duplicate, extend, replace by the root / leaf; n±1, t±1, t<->n, roots swapped, leaf replaced; sizes 0, negative, n = t, n > t); degenerate-consistent tuples: every (t, n) in {-3..3, -2^63, -2^62, 2^63-1}^2 x proof in {empty, honest for the sizes clamped into range} x hashes in {equal, honest, different}; random proofs of length 0-70 for sizes up to 2^63-1 including 2^62±1; non-trivial = valid tuple or one mutation from valid; distinct by op line"})
+		Rule: "every (t, n) with t <= 64 (thorough: t <= 160 plus sampled t <= 600): ProveRecord / ProveTree over a log of t records, and CheckRecord / CheckTree on the valid tuple and on mutations of every component (each proof hash: bit flip, swap two, reverse, drop first/last/middle, duplicate, extend, replace by the root / leaf; n±1, t±1, t<->n, roots swapped, leaf replaced; sizes 0, negative, n = t, n > t); degenerate-consistent tuples: every (t, n) in {-3..3, -2^63, -2^62, 2^63-1}^2 x proof in {empty, honest for the sizes clamped into range} x hashes in {equal, honest, different}; random proofs of length 0-70 for sizes up to 2^63-1 including 2^62±1; uniform-log class: valid tuples (RFC 6962 generator over a log of identical records) and sampled mutations for t in {2^k-1, 2^k, 2^k+1 (k = 40, 61, 62; thorough: k = 1..62), 2^63-1, 2^63-2, 3*2^60, 2^62+2^61(+1), 2^62±5, random huge} x old sizes deep left / split point / right edge / random — proofs of up to 63 / 64 hashes — and ProveRecord / ProveTree over the synthetic hash reader of that log for t <= 2^62+1; non-trivial = valid tuple or one mutation from valid; distinct by op line"})
 }
 
 type c03Tuple struct {
@@ -396,6 +411,45 @@ func genC03(g *Gen, n int) {
 			c03EmitCheck(g, x, "checktree", true)
 		}
 	}
+	// uniform-log class (util_c03uniform.go): VALID tuples (and mutations of them) in trees of 2^40 … 2^63-1
+	// records, with proofs of up to 63 (inclusion) / 64 (consistency) hashes, from the independent RFC 6962
+	// generator over a log of identical records; the real provers over the synthetic hash reader of that log
+	// for the sizes whose stored hash indexes fit int64
+	{
+		u := c03NewUniform(tlogSynthRecord(g.Intn(1000), g.Intn(50)))
+		exps := []int{40, 61, 62}
+		nmut := 2
+		if thorough {
+			exps = exps[:0]
+			for k := 1; k <= 62; k++ {
+				exps = append(exps, k)
+			}
+			nmut = 4
+		}
+		for _, t := range c03UniformTreeSizes(g.Rand, exps) {
+			for _, m := range c03UniformOldSizes(g.Rand, t) {
+				if t <= c03UniformProverMax {
+					g.Emit(fmt.Sprintf("tlog.uproverecord %d %d %s", t, m-1, hx(u.rec)), true, "proverecord-uniform")
+					g.Emit(fmt.Sprintf("tlog.uprovetree %d %d %s", t, m, hx(u.rec)), true, "provetree-uniform")
+				}
+				v := u.recordTuple(t, m-1)
+				c03EmitCheck(g, v, "checkrecord", true)
+				w := u.treeTuple(t, m)
+				c03EmitCheck(g, w, "checktree", true)
+				for _, x := range []struct {
+					kind string
+					v    c03Tuple
+				}{{"checkrecord", v}, {"checktree", w}} {
+					muts := c03Mutations(g.Rand, x.v, false)
+					for j := 0; j < nmut; j++ {
+						mu := muts[g.Intn(len(muts))]
+						mu.what = "uniform-" + mu.what
+						c03EmitCheck(g, mu, x.kind, true)
+					}
+				}
+			}
+		}
+	}
 	// larger sampled sizes
 	big := 40
 	if thorough {
@@ -528,6 +582,80 @@ func oracleC03(g *Gen, n int) {
 		}
 	}
 	degenerate()
+	// uniform-log class (util_c03uniform.go): the same statements as below — prover = RFC 6962 proof, the
+	// prover's proof is accepted, checker = RFC 9162 verifier on the valid tuple and on its mutations — in
+	// trees of up to 2^63-1 identical records: every size 2^k-1, 2^k, 2^k+1, the int64 extremes and random
+	// huge sizes x old sizes deep on the left / at the split / at the right edge / random. The provers run
+	// over the synthetic hash reader (sizes <= 2^62+1); beyond that the honest tuple comes from the
+	// independent RFC 6962 generator alone.
+	uniform := func(exps []int) {
+		u := c03NewUniform(c09Records(g.Rand, 1)[0])
+		rtok := hx(u.rec)
+		for _, t := range c03UniformTreeSizes(g.Rand, exps) {
+			for _, m := range c03UniformOldSizes(g.Rand, t) {
+				t, m, k := t, m, m-1
+				provers := t <= c03UniformProverMax
+				v := u.recordTuple(t, k)
+				w := u.treeTuple(t, m)
+				if !c03AcceptRecord(v) || !c03AcceptTree(w) {
+					// independent of the implementation: generator and verifier of this harness disagree
+					g.Fail("harness self-check: the RFC 6962 proof of the uniform log is refused by the RFC 9162 verifier", fmt.Sprintf("t=%d n=%d", t, m))
+					continue
+				}
+				okRec, okTree := true, true
+				if provers {
+					var p, q []tlog.Hash
+					g.Case("proverecord-uniform")
+					cases++
+					if r := c03Call(func() (err error) { p, err = tlog.ProveRecord(t, k, u); return }); r != "ok" || !tlogEqHashes(p, v.p) {
+						g.Fail("ProveRecord is not the RFC 6962 audit path", fmt.Sprintf("uniform log: t=%d n=%d result=%s len=%d want len=%d", t, k, r, len(p), len(v.p)), fmt.Sprintf("tlog.uproverecord %d %d %s", t, k, rtok))
+						okRec = false
+					} else {
+						v.p = p
+					}
+					g.Case("provetree-uniform")
+					cases++
+					if r := c03Call(func() (err error) { q, err = tlog.ProveTree(t, m, u); return }); r != "ok" || !tlogEqHashes(q, w.p) {
+						g.Fail("ProveTree is not the RFC 6962 consistency proof", fmt.Sprintf("uniform log: t=%d n=%d result=%s len=%d want len=%d", t, m, r, len(q), len(w.p)), fmt.Sprintf("tlog.uprovetree %d %d %s", t, m, rtok))
+						okTree = false
+					} else {
+						w.p = q
+					}
+				}
+				if okRec {
+					checkRecord(v, provers)
+					cases++
+				}
+				if okTree {
+					checkTree(w, provers)
+					cases++
+				}
+				// mutations: always for the longest proofs, else for a quarter of the pairs
+				if len(w.p) >= 62 || g.Chance(25) {
+					for _, mu := range c03Mutations(g.Rand, v, false) {
+						mu.what = "uniform-" + mu.what
+						checkRecord(mu, false)
+						cases++
+					}
+					for _, mu := range c03Mutations(g.Rand, w, false) {
+						mu.what = "uniform-" + mu.what
+						checkTree(mu, false)
+						cases++
+					}
+				}
+			}
+		}
+	}
+	{
+		exps := []int{1, 2, 3, 5, 8, 13, 21, 31, 32, 33, 40, 47, 55, 60, 61, 62}
+		if thorough {
+			exps = exps[:0]
+			for k := 1; k <= 62; k++ {
+				exps = append(exps, k)
+			}
+		}
+		uniform(exps)
+	}
 	for cases < n {
 		if g.Chance(6) {
 			degenerate()
